@@ -43,11 +43,11 @@ var (
 	avoidF5  = false // repaired in /repo (fix: b826759)
 	avoidF7  = false // repaired in /repo (fix: 29dbd78)
 	avoidF8  = true
-	avoidF9  = true
+	avoidF9  = false // repaired in /repo (fix: c34e777)
 	avoidF12 = true
 	avoidF13 = true
 	avoidF14 = true
-	avoidF15 = true
+	avoidF15 = false // repaired in /repo (fix: af73727)
 	avoidF16 = true
 	avoidF17 = true
 	avoidF18 = true
